@@ -195,3 +195,47 @@ package store
 //@   ensures [frame-global] {C20} forall i, k string :: !(isGlobal && i == ident && k == key) ==> (confHas(c.global, i, k) <==> old(confHas(c.global, i, k))) && (confHas(c.global, i, k) ==> confGet(c.global, i, k) == old(confGet(c.global, i, k)))
 //@   ensures [frame-local] {C20} forall i, k string :: !(!isGlobal && i == ident && k == key) ==> (confHas(c.local, i, k) <==> old(confHas(c.local, i, k))) && (confHas(c.local, i, k) ==> confGet(c.local, i, k) == old(confGet(c.local, i, k)))
 //@   ensures [sections] {C20} forall i string :: i != ident ==> (mapHas(c.local, i) <==> old(mapHas(c.local, i))) && (mapHas(c.global, i) <==> old(mapHas(c.global, i)))
+
+// ---- flattening a tree into entries
+
+//@ pred jn(r, q) := ite(r == "", q, r + "/" + q)
+//@ pred isLeafPath(nodes, upto, q, n) := exists k int :: 0 <= k && k < upto && k < len(nodes) && nodes[k].Name == splitHead(q, "/") && ((!contains(q, "/") && n == nodes[k]) || (contains(q, "/") && len(nodes[k].Children) > 0 && object.denotes(nodes[k].Children, splitTail(q, "/"), n)))
+
+//@ func getEntriesFromTree
+//@   returns es, err
+//@   requires object.treeWF(nodes)
+//@   decreases object.height(nodes)
+//@   ensures [ok] err == nil
+//@   ensures [sound] {C05,C07} forall j int :: 0 <= j && j < len(es) ==> es[j] != nil && (exists q string, n *object.Node {splitHead(q, "/"), n.Children} :: object.denotes(nodes, q, n) && len(n.Children) == 0 && string(es[j].Path) == jn(rootName, q) && string(es[j].Hash) == string(n.Hash))
+//@   ensures [complete] {C05,C07} forall q string, n *object.Node :: object.denotes(nodes, q, n) && len(n.Children) == 0 ==> exists j int :: 0 <= j && j < len(es) && string(es[j].Path) == jn(rootName, q) && string(es[j].Hash) == string(n.Hash)
+//@   loop 0:
+//@     invariant forall j int :: 0 <= j && j < len(entries) ==> entries[j] != nil && (exists q string, n *object.Node {splitHead(q, "/"), n.Children} :: isLeafPath(nodes, it, q, n) && len(n.Children) == 0 && string(entries[j].Path) == jn(rootName, q) && string(entries[j].Hash) == string(n.Hash))
+//@     invariant forall q string, n *object.Node :: isLeafPath(nodes, it, q, n) && len(n.Children) == 0 ==> exists j int :: 0 <= j && j < len(entries) && string(entries[j].Path) == jn(rootName, q) && string(entries[j].Hash) == string(n.Hash)
+
+// ---- staged changes: index against a tree
+
+//@ pred leafIn(cs, q, n) := object.denotes(cs, q, n) && len(n.Children) == 0
+//@ pred tracked(idx, q) := exists i int :: 0 <= i && i < len(idx.Entries) && string(idx.Entries[i].Path) == q
+//@ pred diffOK(idx, cs, d) := d != nil && d.Entry != nil && (
+//@        (d.Dt == diffDelete && !tracked(idx, string(d.Entry.Path)) && (exists q string, n *object.Node {splitHead(q, "/"), n.Children} :: leafIn(cs, q, n) && string(d.Entry.Path) == q))
+//@     || (d.Dt == diffModified && (exists i int :: 0 <= i && i < len(idx.Entries) && d.Entry == idx.Entries[i]) && (exists q string, n *object.Node {splitHead(q, "/"), n.Children} :: leafIn(cs, q, n) && string(d.Entry.Path) == q && string(d.Entry.Hash) != string(n.Hash)))
+//@     || (d.Dt == diffNew && (exists i int :: 0 <= i && i < len(idx.Entries) && d.Entry == idx.Entries[i]) && (forall q string, n *object.Node :: leafIn(cs, q, n) ==> q != string(d.Entry.Path))))
+
+//@ func Index.DiffWithTree
+//@   returns ds, err
+//@   requires wfIndex(idx)
+//@   requires tree != nil && object.treeWF(tree.Children) && object.uniqueTree(tree.Children)
+//@   ensures [ok] err == nil
+//@   ensures [sound] {C07} forall d int :: 0 <= d && d < len(ds) ==> diffOK(idx, tree.Children, ds[d])
+//@   ensures [deleted] {C07} forall q string, n *object.Node :: leafIn(tree.Children, q, n) && !tracked(idx, q) ==> exists d int :: 0 <= d && d < len(ds) && ds[d].Dt == diffDelete && string(ds[d].Entry.Path) == q
+//@   ensures [modified] {C07} forall q string, n *object.Node, i int :: leafIn(tree.Children, q, n) && 0 <= i && i < len(idx.Entries) && string(idx.Entries[i].Path) == q && string(idx.Entries[i].Hash) != string(n.Hash) ==> exists d int :: 0 <= d && d < len(ds) && ds[d].Dt == diffModified && ds[d].Entry == idx.Entries[i]
+//@   ensures [new] {C07} forall i int :: 0 <= i && i < len(idx.Entries) && (forall q string, n *object.Node :: leafIn(tree.Children, q, n) ==> q != string(idx.Entries[i].Path)) ==> exists d int :: 0 <= d && d < len(ds) && ds[d].Dt == diffNew && ds[d].Entry == idx.Entries[i]
+//@   loop 0:
+//@     invariant forall d int :: 0 <= d && d < len(diffEntries) ==> diffOK(idx, tree.Children, diffEntries[d])
+//@     invariant forall j int :: 0 <= j && j < it && !tracked(idx, string(gotEntries[j].Path)) ==> exists d int :: 0 <= d && d < len(diffEntries) && diffEntries[d].Dt == diffDelete && string(diffEntries[d].Entry.Path) == string(gotEntries[j].Path)
+//@     invariant forall j int, i int :: 0 <= j && j < it && 0 <= i && i < len(idx.Entries) && string(idx.Entries[i].Path) == string(gotEntries[j].Path) && string(idx.Entries[i].Hash) != string(gotEntries[j].Hash) ==> exists d int :: 0 <= d && d < len(diffEntries) && diffEntries[d].Dt == diffModified && diffEntries[d].Entry == idx.Entries[i]
+//@   loop 1:
+//@     invariant forall d int :: 0 <= d && d < len(diffEntries) ==> diffOK(idx, tree.Children, diffEntries[d])
+//@     invariant forall j int :: 0 <= j && j < len(gotEntries) && !tracked(idx, string(gotEntries[j].Path)) ==> exists d int :: 0 <= d && d < len(diffEntries) && diffEntries[d].Dt == diffDelete && string(diffEntries[d].Entry.Path) == string(gotEntries[j].Path)
+//@     invariant forall j int, i int :: 0 <= j && j < len(gotEntries) && 0 <= i && i < len(idx.Entries) && string(idx.Entries[i].Path) == string(gotEntries[j].Path) && string(idx.Entries[i].Hash) != string(gotEntries[j].Hash) ==> exists d int :: 0 <= d && d < len(diffEntries) && diffEntries[d].Dt == diffModified && diffEntries[d].Entry == idx.Entries[i]
+//@     invariant forall i int :: 0 <= i && i < it && (forall q string, n *object.Node :: leafIn(tree.Children, q, n) ==> q != string(idx.Entries[i].Path)) ==> exists d int :: 0 <= d && d < len(diffEntries) && diffEntries[d].Dt == diffNew && diffEntries[d].Entry == idx.Entries[i]
